@@ -260,7 +260,9 @@ def _run_case(i, rng, rec, tier, state):
     cs, st = state["cs"], state
     mode = i % 6
     if mode == 0:       # Polygon valid / invalid siblings
-        c = gen.polygon_case(rng)
+        c = gen.polygon_case(rng, far_frac=0.12, far_tilted=False)
+        if c["far"]:
+            rec.cls("Polygon:valid:far-from-origin")
         if c.get("straight_corner") is not None:
             rec.cls("polygon:straight-corner" + (":first-three-collinear" if c["straight_corner"] == 1 else ""))
         V = c["V"]
